@@ -5,6 +5,10 @@
   (YtkModel/Diff.lean, YtkModel/Dom.lean).
 -/
 import YtkProofs.Apply
+import YtkProofs.ApplyDiffStr
+import YtkProofs.DiffRel
+import YtkProofs.ApplyDiffB
+import YtkProofs.ValidB
 
 namespace Ytk.C08
 
@@ -45,22 +49,68 @@ theorem apply_change_lookup (d : AMap Node) (p : String) (hp : safeFlattenPath p
     lookup (apply d [⟨.change, p, v, o⟩]) p = some (.leaf v) :=
   apply_add_lookup d p hp v o
 
-/-
-  TODO (stated, not proved) — the reconstruction clause at full strength:
+/-- Every path of a flattened view (of a document constructible through the API over path-safe
+    keys) is a flatten-style path: the hypothesis of `apply_add_lookup` holds for all of them. -/
+theorem flatten_paths_safe (d : AMap Node) (hv : (Node.cont d).Valid) (hs : (Node.cont d).SafeKeys)
+    (p : String) (v : Scalar) (h : (p, v) ∈ flatten d) : safeFlattenPath p = true :=
+  safeFlattenPath_of_mem_flatten d hv hs p v h
 
-    theorem apply_diff_flatten (L R : AMap Node) (hL : (Node.cont L).Valid) (hR : (Node.cont R).Valid)
-        (hsafe : SafeKeys L ∧ SafeKeys R) (hc : Compat L R) (hi : ItemsHaveScalars L) :
-        flattenMap (apply R (diff L R)) = flattenMap L
+/-- … hence: an Add (or Change) at any path taken from some document's flattened view makes
+    Lookup return the value there, on ANY target document. -/
+theorem apply_add_lookup_flatten (src : AMap Node) (hv : (Node.cont src).Valid) (hs : (Node.cont src).SafeKeys)
+    (p : String) (w : Scalar) (h : (p, w) ∈ flatten src) (d : AMap Node) (v o : Scalar) :
+    lookup (apply d [⟨.add, p, v, o⟩]) p = some (.leaf v) ∧
+    lookup (apply d [⟨.change, p, v, o⟩]) p = some (.leaf v) :=
+  ⟨apply_add_lookup d p (flatten_paths_safe src hv hs p w h) v o,
+   apply_change_lookup d p (flatten_paths_safe src hv hs p w h) v o⟩
 
-  where `Compat` is: wherever both containers define a key the kinds agree, leaves are equal,
-  containers are recursively compatible, lists are unconstrained.  Missing: the string-level
-  facts `splitPath (toPath p k) = splitPath p ++ [k]`, `parseSeg/parseListComp (k ++ "[i]…")`
-  for path-safe keys (being proved for C02/C03), the independence of modifications at
-  non-prefix-related paths, and the list-rebuild invariant of DESIGN.md C02 (`rebuild_perm`).
-  The clause is carried by the correspondence harness (direct predicate
-  `apply-diff-reconstructs-left-flatten` on the Compat domain) and by `nonvacuous_reconstruct`
-  below on concrete documents.
+/-!
+  ## The reconstruction clause
+
+  Domain (DESIGN.md section 6, C08):
+  * `Compat (.cont L) (.cont R)` (YtkProofs/ApplyDiff.lean) — wherever both documents define a
+    keyed position the kinds agree, scalars are equal, containers are recursively compatible;
+    lists are unconstrained (R is L with keyed subtrees deleted / added and lists replaced);
+  * `(Node.cont L).ItemsHaveScalars` — every item of every list of L holds at least one scalar;
+  * both documents constructible through the API (`Valid`) over path-safe keys (`SafeKeys`:
+    non-empty, without `.`, `[`, `]`).
 -/
+
+/-- **Applying Diff(L, R) to R reconstructs L's flattened view** — at full strength: the ordered
+    flattened view (hence also the Go map `Flatten()` returns). -/
+theorem apply_diff_flatten (L R : AMap Node) (hL : (Node.cont L).Valid) (hR : (Node.cont R).Valid)
+    (hsL : (Node.cont L).SafeKeys) (hsR : (Node.cont R).SafeKeys) (hc : Compat (.cont L) (.cont R))
+    (hi : (Node.cont L).ItemsHaveScalars) : flatten (apply R (diff L R)) = flatten L :=
+  apply_diff_flatten_core L R hL hR hsL hsR hc hi
+
+/-- the same as the Go map -/
+theorem apply_diff_flattenMap (L R : AMap Node) (hL : (Node.cont L).Valid) (hR : (Node.cont R).Valid)
+    (hsL : (Node.cont L).SafeKeys) (hsR : (Node.cont R).SafeKeys) (hc : Compat (.cont L) (.cont R))
+    (hi : (Node.cont L).ItemsHaveScalars) : flattenMap (apply R (diff L R)) = flattenMap L := by
+  simp only [flattenMap, apply_diff_flatten L R hL hR hsL hsR hc hi]
+
+/-- Sorting does not matter beyond "ordered by path": ANY path-sorted arrangement of the emitted
+    modifications (stable or not) reconstructs L. -/
+theorem apply_sorted_flatten (L R : AMap Node) (hL : (Node.cont L).Valid) (hR : (Node.cont R).Valid)
+    (hsL : (Node.cont L).SafeKeys) (hsR : (Node.cont R).SafeKeys) (hc : Compat (.cont L) (.cont R))
+    (hi : (Node.cont L).ItemsHaveScalars) (ms : List Mod) (hp : ms.Perm (emit L R))
+    (hsorted : ms.Pairwise (fun a b => a.path ≤ b.path)) : flatten (apply R ms) = flatten L :=
+  apply_sorted_perm_flatten L R hL hR hsL hsR hc hi ms hp hsorted
+
+/-- Sorting is not even needed for reconstruction: applying the modifications in the order in
+    which Diff emits them (before `sort.SliceStable`) reconstructs L as well. -/
+theorem apply_emit_flatten (L R : AMap Node) (hL : (Node.cont L).Valid) (hR : (Node.cont R).Valid)
+    (hsL : (Node.cont L).SafeKeys) (hsR : (Node.cont R).SafeKeys) (hc : Compat (.cont L) (.cont R))
+    (hi : (Node.cont L).ItemsHaveScalars) : flatten (apply R (emit L R)) = flatten L :=
+  apply_emit_flatten_core L R hL hR hsL hsR hc hi
+
+/-- … in particular whatever order Go ranged over its maps in while diffing (`EmitRel`,
+    YtkModel/Diff.lean): the sorted result reconstructs L. -/
+theorem apply_diff_flatten_any_map_order (L R : AMap Node) (hL : (Node.cont L).Valid) (hR : (Node.cont R).Valid)
+    (hsL : (Node.cont L).SafeKeys) (hsR : (Node.cont R).SafeKeys) (hc : Compat (.cont L) (.cont R))
+    (hi : (Node.cont L).ItemsHaveScalars) (ms : List Mod) (h : EmitRel (.cont L) (.cont R) "" ms) :
+    flatten (apply R (sortMods ms)) = flatten L :=
+  apply_sorted_perm_flatten L R hL hR hsL hsR hc hi _ ((sortMods_perm ms).trans (emitRel_perm h)) (sortMods_sorted ms)
 
 /-! ## non-vacuity -/
 
@@ -90,4 +140,30 @@ theorem nonvacuous_delete_absent :
 theorem nonvacuous_reconstruct : diff exL exR ≠ [] ∧ flattenMap (apply exR (diff exL exR)) = flattenMap exL := by
   decide +kernel
 
+/-- the concrete pair lies in the domain of `apply_diff_flatten` (checked by the sound Boolean
+    checkers of YtkProofs/ApplyDiffB.lean and ValidB.lean) … -/
+theorem nonvacuous_domain :
+    (Node.cont exL).Valid ∧ (Node.cont exR).Valid ∧ (Node.cont exL).SafeKeys ∧ (Node.cont exR).SafeKeys ∧
+    Compat (.cont exL) (.cont exR) ∧ (Node.cont exL).ItemsHaveScalars :=
+  ⟨Node.validB_sound _ (by decide +kernel), Node.validB_sound _ (by decide +kernel),
+   Node.safeKeysB_sound _ (by decide +kernel), Node.safeKeysB_sound _ (by decide +kernel),
+   compatB_sound _ _ (by decide +kernel), Node.itemsB_sound _ (by decide +kernel)⟩
+
+/-- … so the theorem applies to it (a non-empty diff with a list replacement, a deleted key and
+    an added subtree), and both hypotheses matter: without `ItemsHaveScalars` (an empty container
+    as a list item) resp. without `Compat` (kind mismatch) the clause fails. -/
+theorem nonvacuous_apply_diff_flatten : flatten (apply exR (diff exL exR)) = flatten exL :=
+  apply_diff_flatten exL exR nonvacuous_domain.1 nonvacuous_domain.2.1 nonvacuous_domain.2.2.1
+    nonvacuous_domain.2.2.2.1 nonvacuous_domain.2.2.2.2.1 nonvacuous_domain.2.2.2.2.2
+
+theorem nonvacuous_hypotheses_needed :
+    (let L : AMap Node := [("a", .list [.cont [], .leaf (i 1)])]
+     let R : AMap Node := [("a", .list [])]
+     compatB (.cont L) (.cont R) = true ∧ flatten (apply R (diff L R)) ≠ flatten L) ∧
+    (let L : AMap Node := [("k", .cont [("x", .leaf (i 1))])]
+     let R : AMap Node := [("k", .leaf (i 5))]
+     (Node.cont L).itemsB = true ∧ flatten (apply R (diff L R)) ≠ flatten L) := by
+  decide +kernel
+
 end Ytk.C08
+
